@@ -117,3 +117,9 @@ Definition count_true (l : list bool) : Z := Z.of_nat (List.length (filter (fun 
 (* the names of [m] the model does NOT forbid *)
 Definition allowed_names (allow_ : list pystr) (m : pystr) (names : list pystr) : sx :=
   SL (map sx_str (filter (decide allow_ m) names)).
+
+(* the model's default process tables, to be compared with the measured ones *)
+Definition gk_code (g : gkind) : Z := match g with GType => 0 | GFunc => 1 | GPlain => 2 | GNone => 3 end.
+Definition sx_default_world : sx :=
+  SL [SL (sx_sort (map sx_str default_modules));
+      SL (sx_sort (map (fun t => SL [sx_str (fst (fst t)); sx_str (snd (fst t)); SZ (gk_code (snd t))]) default_found))].
